@@ -124,7 +124,7 @@ func (g *vpGen) idField(doc int) *vpField {
 	return f
 }
 
-const vpNumTemplates = 10
+const vpNumTemplates = 11
 
 // template k of a document.
 func (g *vpGen) doc(k, idx int) *vpDoc {
@@ -154,6 +154,11 @@ func (g *vpGen) doc(k, idx int) *vpDoc {
 		d.fields = append(d.fields, g.field("c", g.term("x", 1, "a")), g.field("c", g.term("x", 1, "a")), g.field("a", g.term("y\xfe", 0, "")))
 	case 9:
 		d.fields = append(d.fields, g.field("a", g.term("x", 0, "")), g.field("b", g.term("x", 0, "")))
+	case 10:
+		// a stored-only field without any term next to an indexed one
+		g.feat("termless-field")
+		d.fields = append(d.fields, g.field("a", g.term("x", 0, "")),
+			&vpField{name: "s", store: true, value: g.bytes("val", 1)})
 	}
 	return d
 }
